@@ -92,7 +92,14 @@ def run_spec(job, env, extra_judge=None):
     idx = 0
     import time
     glob = tuple(tuple(x) for x in spec.get("globals", ()))
-    for base in spec["bases"]:
+    bases = spec.get("bases")
+    if bases is None:
+        # shape family slice: generated in the worker (cheaper than shipping a million terms)
+        import itertools
+        sl = spec["shape_slice"]
+        lv = spec.get("shape_leaves")
+        bases = itertools.islice(gen.shape_programs(sl[2], _tuplify(lv) if lv else None), sl[0], None, sl[1])
+    for base in bases:
         base = _tuplify(base)
         if glob:
             base = base[:3] + (tuple(sorted(base[3] + glob)),)
